@@ -240,11 +240,11 @@ def boolInputMapper : V → Out Bool
   | .bool b => .ok b
   | .str s => match boolOfWord s with
     | some b => .ok b
-    | none => .plain
+    | none => .cerr
   | .int _ n =>
     let w := wrapInt64 n
-    if w == 1 then .ok true else if w == 0 then .ok false else .plain
-  | _ => .plain
+    if w == 1 then .ok true else if w == 0 then .ok false else .cerr
+  | _ => .cerr
 
 /-! ### reflective conversions used by Validate / Serialize -/
 
